@@ -7,11 +7,11 @@ MonInit == /\ tid \in 1..Len(Obs) /\ l = 1
               /\ pc = [w \in Writers |-> o.pc[w]] /\ saw = [w \in Writers |-> o.saw[w]]
               /\ look = [w \in Writers |-> o.look[w]]
               /\ out = o.out /\ incache = o.incache /\ cb = o.cb /\ ecb = o.ecb /\ hist = o.hist
-              /\ mutex = o.mutex /\ softsig = o.softsig /\ tcb = o.tcb /\ act = Obs[tid][1].act
+              /\ tcancel = o.tcancel /\ mutex = o.mutex /\ softsig = o.softsig /\ tcb = o.tcb /\ act = Obs[tid][1].act
 MonNext == /\ l < Len(Obs[tid]) /\ l' = l + 1 /\ tid' = tid
            /\ LET o == Obs[tid][l + 1].state IN
               /\ pc' = [w \in Writers |-> o.pc[w]] /\ saw' = [w \in Writers |-> o.saw[w]]
               /\ look' = [w \in Writers |-> o.look[w]]
               /\ out' = o.out /\ incache' = o.incache /\ cb' = o.cb /\ ecb' = o.ecb /\ hist' = o.hist
-              /\ mutex' = o.mutex /\ softsig' = o.softsig /\ tcb' = o.tcb /\ act' = Obs[tid][l + 1].act
+              /\ tcancel' = o.tcancel /\ mutex' = o.mutex /\ softsig' = o.softsig /\ tcb' = o.tcb /\ act' = Obs[tid][l + 1].act
 =============================================================================
